@@ -35,7 +35,7 @@ Emit == res # <<>> => PrintT(ToJson([seg |-> Target(b, d), shape |-> shape, kind
                                      voiced |-> Bit(Target(b, d).lar, 4), st |-> res[1], exp |-> res[2]]))
 
 \* design-level laws, checked on the same enumeration (every target segment, every feature)
-Laws == res = <<>> /\ kind = "f" /\ shape = "set" =>
+Laws == res # <<>> /\ kind = "f" /\ shape = "set" =>
           LET s == Target(b, d) IN
           /\ SegOK(s) /\ SegOK(SetFeat(s, x, pos))
           /\ SetThenMatch(s, x, pos) /\ NegOnAbsentIsNoop(s, x) /\ FrameFeat(s, x, pos) /\ FrameNodes(s, x, pos)
